@@ -40,7 +40,7 @@ func gen(t *rapid.T) Case {
 	if rapid.IntRange(0, 2).Draw(t, "goimports") > 0 {
 		r.Formatter = "goimports"
 	}
-	o := progen.Opts{BenignNames: true, Avoid: map[string]bool{"srcpkg:mock": true, "pkg:mockp": true}}
+	o := progen.Opts{BenignNames: true, Avoid: map[string]bool{"srcpkg:mock": true, "pkg:mockp": true}, CrossEmbed: true}
 	if r.InPackage() && rapid.IntRange(0, 2).Draw(t, "unexported") == 0 {
 		o.AllowUnexported = true
 	}
